@@ -105,7 +105,7 @@ def worker(arg):
 
 def check(tier, seed):
     t = pc.trees("plain")
-    n = 32 if tier == "quick" else 480
+    n = 32 if tier == "quick" else 128
     res = Result("exploration")
     res.rule = RULE
     base = seed * 1000000 + (0 if tier == "quick" else 50000) + 20000
